@@ -25,8 +25,8 @@ ASSUMPTIONS = [
     "only behaviour is judged (return values, emptiness/fullness, public colours); internal array layout is not",
 ]
 BUDGET = {
-    "quick": {"cases": 6000, "seconds": 40, "shards": 8},
-    "thorough": {"cases": 150000, "seconds": 420, "shards": 16},
+    "quick": {"cases": 12000, "seconds": 90, "shards": 8},
+    "thorough": {"cases": 300000, "seconds": 900, "shards": 16},
 }
 REQUIRED_OBS = ["remove_ok", "update_queued_improve", "insert_full_refused", "remove_empty_refused",
                 "update_white_inserts", "tie_at_remove", "drained_heaps", "exhaustive_sequences", "live_removes", "live_decrease_keys"]
